@@ -14,3 +14,5 @@ open BV
 #print axioms C10_hook_failure_stops
 #print axioms C10_hook_env
 #print axioms C10_success_complete
+#print axioms tie_parseVcsOptions
+#print axioms parseVcsOptions_bad_scope
